@@ -1007,7 +1007,7 @@ def gen_history(rng, n_ops: int):
 
 
 def run_all(ctx: common.Ctx):
-    n_hist = ctx.scale(260, 2500)
+    n_hist = ctx.scale(700, 6000)
     cases, metas = [], []
     for _ in range(n_hist):
         name, layout, ops, r = gen_history(ctx.rng, ctx.rng.choice([6, 10, 16, 24]))
